@@ -114,3 +114,66 @@ Proof.
   destruct (add_penalty (gt (nd m)) ip (penalty (rl m) proc) now) as [g' ns]. cbn in S.
   destruct (max_penalty <=? ns); cbn; auto.
 Qed.
+
+(* ---- interleaved traffic: the penalties of a (procedure, peer) pair depend only on that pair's own messages and the resets *)
+Definition is_pair (proc peer : N) (e : rev) : bool :=
+  match e with RMsg p q => (p =? proc)%N && (q =? peer)%N | RReset => true end.
+Definition project (proc peer : N) (es : list rev) : list rev := filter (is_pair proc peer) es.
+Definition pen_of (proc peer : N) (x : N * N * Z) : bool := let '(p, q, _) := x in (p =? proc)%N && (q =? peer)%N.
+
+Lemma on_msg_other r p q proc peer : (p =? proc)%N && (q =? peer)%N = false ->
+  cnt (fst (on_msg r p q)) proc peer = cnt r proc peer.
+Proof.
+  intros H. unfold on_msg. rewrite (N.eqb_sym p proc), (N.eqb_sym q peer) in H.
+  destruct (limit r p <? cnt r p q + 1); cbn; rewrite H; reflexivity.
+Qed.
+
+Lemma pairwise_independent es : forall proc peer r r',
+  cnt r proc peer = cnt r' proc peer -> limit r = limit r' -> penalty r = penalty r' ->
+  filter (pen_of proc peer) (snd (rrun r es)) = snd (rrun r' (project proc peer es)).
+Proof.
+  induction es as [|e es IH]; intros proc peer r r' C L P; cbn [rrun project filter]; auto.
+  destruct e as [p q|]; cbn [is_pair].
+  - destruct ((p =? proc)%N && (q =? peer)%N) eqn:B.
+    + apply andb_true_iff in B. destruct B as [B1 B2]. apply N.eqb_eq in B1, B2. subst p q. cbn [rrun].
+      unfold on_msg. rewrite <- C, <- L, <- P.
+      destruct (limit r proc <? cnt r proc peer + 1).
+      * match goal with |- context [rrun ?a es] => match goal with |- context [rrun ?b (filter _ es)] =>
+          specialize (IH proc peer a b) end end.
+        cbn in IH. rewrite !N.eqb_refl in IH. cbn in IH. specialize (IH eq_refl eq_refl eq_refl).
+        destruct (rrun _ es) as [ra pa]. unfold project in IH. destruct (rrun _ (filter _ es)) as [rb pb].
+        cbn in *. rewrite !N.eqb_refl. cbn. f_equal. exact IH.
+      * match goal with |- context [rrun ?a es] => match goal with |- context [rrun ?b (filter _ es)] =>
+          specialize (IH proc peer a b) end end.
+        cbn in IH. rewrite !N.eqb_refl in IH. cbn in IH. specialize (IH eq_refl eq_refl eq_refl).
+        destruct (rrun _ es) as [ra pa]. unfold project in IH. destruct (rrun _ (filter _ es)) as [rb pb].
+        cbn in *. exact IH.
+    + pose proof (on_msg_other r p q proc peer B) as O. pose proof (on_msg_params r p q) as [L' P'].
+      destruct (on_msg r p q) as [ra pe]. cbn in O, L', P'.
+      specialize (IH proc peer ra r'). rewrite O in IH. specialize (IH C (eq_trans L' L) (eq_trans P' P)).
+      destruct (rrun ra es) as [rb ps]. cbn in *. destruct pe; cbn; [rewrite B|]; exact IH.
+  - apply IH; cbn; auto.
+Qed.
+
+(* one pair, no reset: n messages starting from counter c0 give exactly (c0 + n) / (limit + 1) penalties *)
+Lemma single_pair_count n : forall r proc peer, 0 <= cnt r proc peer <= limit r proc ->
+  let '(r', ps) := rrun r (repeat (RMsg proc peer) n) in
+  exists c, cnt r' proc peer = c /\ 0 <= c <= limit r proc /\
+            cnt r proc peer + Z.of_nat n = Z.of_nat (length ps) * (limit r proc + 1) + c /\
+            Forall (fun x => x = (proc, peer, penalty r proc)) ps.
+Proof.
+  induction n; intros r proc peer H.
+  - cbn. exists (cnt r proc peer). repeat split; try lia. constructor.
+  - cbn [repeat rrun]. pose proof (on_msg_params r proc peer) as [LP PP]. unfold on_msg in *.
+    destruct (limit r proc <? cnt r proc peer + 1) eqn:E.
+    + apply Z.ltb_lt in E. cbn in LP, PP.
+      match goal with |- context [rrun ?a _] => specialize (IHn a proc peer) end.
+      cbn [cnt limit] in IHn. rewrite !N.eqb_refl in IHn. cbn in IHn.
+      destruct (rrun _ (repeat (RMsg proc peer) n)) as [r' ps]. destruct IHn as [c [C1 [C2 [C3 C4]]]]; try lia.
+      exists c. cbn [length]. repeat split; auto; try lia.
+    + apply Z.ltb_ge in E. cbn in LP, PP.
+      match goal with |- context [rrun ?a _] => specialize (IHn a proc peer) end.
+      cbn [cnt limit] in IHn. rewrite !N.eqb_refl in IHn. cbn in IHn.
+      destruct (rrun _ (repeat (RMsg proc peer) n)) as [r' ps]. destruct IHn as [c [C1 [C2 [C3 C4]]]]; try lia.
+      exists c. repeat split; auto; try lia.
+Qed.
